@@ -149,7 +149,7 @@ func execC01(w *c01W, x *Exec) *Outcome {
 		o.Inconclusive = "infra:bad program json: " + err.Error()
 		return o
 	}
-	verdict := gen.TypeCheck(stmts)
+	verdict := gen.TypeCheckExt(stmts)
 	o.Count("typing:"+verdict, 1)
 	o.Count("policy:"+simrt.Policy(w.Run.Policy).String(), 1)
 	if w.Run.CapDiv > 1 {
